@@ -22,6 +22,7 @@ import (
 	"strconv"
 	"strings"
 	"sync"
+	"sync/atomic"
 	"testing"
 	"time"
 )
@@ -29,51 +30,134 @@ import (
 // ---------------------------------------------------------------- stand-in compressors
 
 // vfC18LitLz4 is named "lz4" (the real LZ4Compressor lives in another module that this package
-// cannot import): Cassandra's length prefix + one literals-only LZ4 sequence.
+// cannot import): Cassandra's length prefix + an LZ4 block assembled here - literals only, or, when
+// the data ends in a long periodic stretch (repeated rows), literals + ONE overlapping match +
+// 12 final literals.  What it emits is re-read by the TLA+ reference decoder (strict reading).
 type vfC18LitLz4 struct{}
 
 func (vfC18LitLz4) Name() string { return "lz4" }
+
+func vfC18LzLen(out []byte, r int) []byte {
+	for r >= 255 {
+		out = append(out, 255)
+		r -= 255
+	}
+	return append(out, byte(r))
+}
+
+func vfC18LzSeq(out, lits []byte, off, mlen int) []byte {
+	tok := byte(0)
+	if len(lits) >= 15 {
+		tok = 0xF0
+	} else {
+		tok = byte(len(lits) << 4)
+	}
+	m := mlen - 4
+	if mlen > 0 {
+		if m >= 15 {
+			tok |= 0x0F
+		} else {
+			tok |= byte(m)
+		}
+	}
+	out = append(out, tok)
+	if len(lits) >= 15 {
+		out = vfC18LzLen(out, len(lits)-15)
+	}
+	out = append(out, lits...)
+	if mlen > 0 {
+		out = append(out, byte(off), byte(off>>8))
+		if m >= 15 {
+			out = vfC18LzLen(out, m-15)
+		}
+	}
+	return out
+}
+
 func (vfC18LitLz4) Encode(data []byte) ([]byte, error) {
 	out := make([]byte, 4, len(data)+16)
 	binary.BigEndian.PutUint32(out, uint32(len(data)))
 	n := len(data)
-	if n < 15 {
-		out = append(out, byte(n<<4))
-	} else {
-		out = append(out, 0xF0)
-		r := n - 15
-		for r >= 255 {
-			out = append(out, 255)
-			r -= 255
+	// longest stretch data[i:e) with data[j] == data[j-p], e <= n-12, over small periods
+	bestI, bestE, bestP := 0, 0, 0
+	if n >= 64 {
+		for p := 1; p <= 64; p++ {
+			i := -1
+			for j := p; j <= n-12; j++ {
+				if j < n-12 && data[j] == data[j-p] {
+					if i < 0 {
+						i = j
+					}
+					continue
+				}
+				if i >= 0 && j-i > bestE-bestI {
+					bestI, bestE, bestP = i, j, p
+				}
+				i = -1
+			}
 		}
-		out = append(out, byte(r))
 	}
-	return append(out, data...), nil
+	if bestE-bestI >= 32 {
+		out = vfC18LzSeq(out, data[:bestI], bestP, bestE-bestI)
+		return vfC18LzSeq(out, data[bestE:], 0, 0), nil
+	}
+	return vfC18LzSeq(out, data, 0, 0), nil
 }
+
 func (vfC18LitLz4) Decode(data []byte) ([]byte, error) {
+	bad := errors.New("vf: malformed lz4 body")
 	if len(data) < 5 {
-		return nil, errors.New("vf: short lz4 body")
+		return nil, bad
 	}
 	n := int(binary.BigEndian.Uint32(data))
-	p := 5
-	l := int(data[4] >> 4)
-	if l == 15 {
+	src := data[4:]
+	out := make([]byte, 0, n)
+	p := 0
+	readLen := func(l int) (int, bool) {
+		if l != 15 {
+			return l, true
+		}
 		for {
-			if p >= len(data) {
-				return nil, errors.New("vf: short lz4 body")
+			if p >= len(src) {
+				return 0, false
 			}
-			b := int(data[p])
+			b := int(src[p])
 			p++
 			l += b
 			if b != 255 {
-				break
+				return l, true
 			}
 		}
 	}
-	if l != n || p+l != len(data) {
-		return nil, errors.New("vf: not a literals-only lz4 body")
+	for p < len(src) {
+		tok := src[p]
+		p++
+		ll, ok := readLen(int(tok >> 4))
+		if !ok || p+ll > len(src) {
+			return nil, bad
+		}
+		out = append(out, src[p:p+ll]...)
+		p += ll
+		if p == len(src) {
+			break
+		}
+		if p+2 > len(src) {
+			return nil, bad
+		}
+		off := int(src[p]) | int(src[p+1])<<8
+		p += 2
+		ml, ok := readLen(int(tok & 15))
+		if !ok || off == 0 || off > len(out) {
+			return nil, bad
+		}
+		for k := 0; k < ml+4; k++ {
+			out = append(out, out[len(out)-off])
+		}
 	}
-	return append([]byte(nil), data[p:]...), nil
+	if len(out) != n {
+		return nil, bad
+	}
+	return out, nil
 }
 
 // vfC18Xor stands for a third-party compressor: marker byte, then every byte xor 0x5a.
@@ -514,6 +598,10 @@ func vfC18SnappyLiteral(b []byte) []byte {
 	return out
 }
 
+func vfC18ForgedRows() []byte {
+	return vfRowsBody(4, "ks", "tbl", []vfCol{{"v", vfTVarchar}}, [][][]byte{{vfCellText("forged!!!")}}, nil, false)
+}
+
 func vfC18RespCases() []vfC18RespCase {
 	var cases []vfC18RespCase
 	rows := vfRowsBody(4, "ks", "tbl", []vfCol{{"v", vfTVarchar}}, [][][]byte{{vfCellText("forty-two")}}, nil, false)
@@ -543,6 +631,13 @@ func vfC18RespCases() []vfC18RespCase {
 			lenp1 := append([]byte(nil), good...)
 			lenp1[0]++
 			add("length-plus-one", true, lenp1)
+			if stage == "result" {
+				// a body that is itself a well-formed RESULT frame addressed to ANOTHER request in flight on the same
+				// connection: a reader that leaves the body of a refused frame on the socket hands it to that request.
+				// (The node rewrites the stream id of the forged frame to the second request's at run time; the
+				// recorded body shows stream 1.)
+				add("forged-frames", true, vfEncodeFrame(4, 0, 1, vfOpResult, vfC18ForgedRows()))
+			}
 		}
 	}
 	return cases
@@ -564,6 +659,9 @@ func vfC18RunResp(c vfC18RespCase) string {
 		flags = 1
 	}
 	var fired sync.Once
+	var armed int32
+	var held *vfFrame // touched only on the connection's reader goroutine
+	followRows := vfRowsBody(4, "ks", "tbl", []vfCol{{"v", vfTVarchar}}, [][][]byte{{vfCellText("follow-up")}}, nil, false)
 	eventSent := make(chan struct{})
 	n.Handler = func(nc *vfNodeConn, f *vfFrame, q *vfRequest) bool {
 		switch {
@@ -575,10 +673,28 @@ func vfC18RunResp(c vfC18RespCase) string {
 			nc.ReplyFlags(f, flags, vfOpReady, body)
 			return true
 		case c.Stage == "result" && (f.Op == vfOpExecute || f.Op == vfOpQuery && strings.Contains(q.Stmt, "ks.tbl")):
-			nc.ReplyFlags(f, flags, vfOpResult, body)
+			k := atomic.AddInt32(&armed, 1)
+			switch {
+			case c.Kind == "forged-frames" && k == 1:
+				held = f // answered when the second request is in flight
+			case c.Kind == "forged-frames" && k == 2:
+				// the flagged answer to the FIRST request carries, as its body, a frame addressed to the second one
+				nc.ReplyFlags(held, flags, vfOpResult, vfEncodeFrame(f.Version, 0, f.Stream, vfOpResult, vfC18ForgedRows()))
+				nc.Reply(f, vfOpResult, followRows)
+			case k == 1:
+				nc.ReplyFlags(f, flags, vfOpResult, body)
+			default: // the FOLLOWING request on the same connection: a plain answer
+				nc.Reply(f, vfOpResult, followRows)
+			}
 			return true
 		case c.Stage == "prepared" && f.Op == vfOpPrepare:
-			nc.ReplyFlags(f, flags, vfOpResult, body)
+			if atomic.AddInt32(&armed, 1) == 1 {
+				nc.ReplyFlags(f, flags, vfOpResult, body)
+				return true
+			}
+			return false
+		case c.Stage == "prepared" && f.Op == vfOpExecute:
+			nc.Reply(f, vfOpResult, followRows)
 			return true
 		case c.Stage == "event" && f.Op == vfOpRegister:
 			nc.Registered = q.Register
@@ -600,12 +716,46 @@ func vfC18RunResp(c vfC18RespCase) string {
 	withControl := c.Stage == "event"
 	mod := func(cfg *ClusterConfig) {
 		cfg.ReconnectionPolicy = &ConstantReconnectionPolicy{MaxRetries: 1, Interval: time.Millisecond}
+		cfg.Timeout = 2 * time.Second // a swallowed answer shows as a timeout; keep it well above scheduling noise
 		if c.Negotiated == "snappy" {
 			cfg.Compressor = SnappyCompressor{}
 		}
 	}
+	// the FOLLOWING request, same statement (already prepared where the first one got that far), same connection:
+	// its plain answer must arrive intact whatever happened to the flagged frame before it
+	follow := func() {
+		stmt, args := "SELECT v FROM ks.tbl", []interface{}{}
+		if c.Stage == "prepared" {
+			stmt, args = "SELECT v FROM ks.tbl WHERE k = ?", []interface{}{1}
+		}
+		var v string
+		res := make(chan string, 1)
+		go func() {
+			if qerr := s.Query(stmt, args...).Scan(&v); qerr != nil {
+				fmt.Printf("VFCHILD followdetail=%v\n", qerr)
+				res <- "error"
+			} else if v != "follow-up" {
+				fmt.Printf("VFCHILD followdetail=got %q\n", v)
+				res <- "wrong-value"
+			} else {
+				res <- "value"
+			}
+		}()
+		select {
+		case r := <-res:
+			fmt.Printf("VFCHILD follow=%s\n", r)
+		case <-time.After(8 * time.Second):
+			fmt.Printf("VFCHILD follow=hang\n")
+		}
+		d.mu.Lock()
+		nd := len(d.DriverConns[n.Addr.IP.String()])
+		d.mu.Unlock()
+		fmt.Printf("VFCHILD followconns=%d\n", nd)
+	}
 	done := make(chan string, 1)
+	finished := make(chan struct{})
 	go func() {
+		defer close(finished)
 		if withControl {
 			cfg := vfClusterConfig(d, 4, n.Desc.Addr)
 			mod(cfg)
@@ -622,6 +772,19 @@ func vfC18RunResp(c vfC18RespCase) string {
 		switch c.Stage {
 		case "result":
 			var v string
+			if c.Kind == "forged-frames" {
+				// two requests in flight: warm the statement cache, then the second request starts while the
+				// first is unanswered
+				s.Query("SELECT v FROM ks.tbl WHERE k = 0").Exec()
+				atomic.StoreInt32(&armed, 0)
+				fdone := make(chan struct{})
+				go func() {
+					defer close(fdone)
+					time.Sleep(100 * time.Millisecond)
+					follow()
+				}()
+				defer func() { <-fdone }()
+			}
 			if qerr := s.Query("SELECT v FROM ks.tbl").Scan(&v); qerr != nil {
 				fmt.Printf("VFCHILD detail=%v\n", qerr)
 				done <- "error"
@@ -630,6 +793,9 @@ func vfC18RunResp(c vfC18RespCase) string {
 			} else {
 				done <- "value"
 			}
+			if c.Kind != "forged-frames" {
+				follow()
+			}
 		case "prepared":
 			if qerr := s.Query("SELECT v FROM ks.tbl WHERE k = ?", 1).Exec(); qerr != nil {
 				fmt.Printf("VFCHILD detail=%v\n", qerr)
@@ -637,6 +803,7 @@ func vfC18RunResp(c vfC18RespCase) string {
 			} else {
 				done <- "value"
 			}
+			follow()
 		case "event":
 			select {
 			case <-eventSent:
@@ -660,6 +827,10 @@ func vfC18RunResp(c vfC18RespCase) string {
 	}()
 	select {
 	case r := <-done:
+		select { // let the following request finish (it prints its own outcome)
+		case <-finished:
+		case <-time.After(12 * time.Second):
+		}
 		return r
 	case <-time.After(15 * time.Second):
 		return "hang"
@@ -696,7 +867,17 @@ func TestVfC18Resp(t *testing.T) {
 				cmd.Env = append(os.Environ(), "VF_C18_CHILD_CASE="+string(b))
 				o, _ := cmd.CombinedOutput()
 				outcome, detail := "crash", ""
+				fo, fd := "", ""
 				for _, ln := range strings.Split(string(o), "\n") {
+					if strings.HasPrefix(ln, "VFCHILD follow=") {
+						fo = strings.TrimPrefix(ln, "VFCHILD follow=")
+					}
+					if strings.HasPrefix(ln, "VFCHILD followdetail=") {
+						fd += strings.TrimPrefix(ln, "VFCHILD followdetail=") + " "
+					}
+					if strings.HasPrefix(ln, "VFCHILD followconns=") {
+						fd += "connections dialled: " + strings.TrimPrefix(ln, "VFCHILD followconns=")
+					}
 					if strings.HasPrefix(ln, "VFCHILD outcome=") {
 						outcome = strings.TrimPrefix(ln, "VFCHILD outcome=")
 					}
@@ -724,6 +905,10 @@ func TestVfC18Resp(t *testing.T) {
 				}
 				out.Emit(map[string]interface{}{"k": "resp", "negotiated": c.Negotiated, "stage": c.Stage, "kind": c.Kind, "flag": c.Flag,
 					"body": c.Body, "outcome": outcome, "detail": detail})
+				if fo != "" {
+					out.Emit(map[string]interface{}{"k": "follow", "negotiated": c.Negotiated, "stage": c.Stage, "kind": c.Kind, "flag": c.Flag,
+						"body": c.Body, "first": outcome, "outcome": fo, "detail": fd})
+				}
 			}
 		}()
 	}
